@@ -17,6 +17,7 @@ import (
 	"unsafe"
 
 	"github.com/d5/tengo/v2"
+	"github.com/d5/tengo/v2/stdlib"
 	"verif/engine/bcv"
 	"verif/engine/gen"
 	"verif/engine/report"
@@ -60,6 +61,8 @@ func program(c Case) (*gen.Program, string) {
 		return p.Prog, p.Placement
 	case "limits":
 		return gen.Limits(c.Kind, c.K), fmt.Sprintf("limits:%s/size=%d", c.Kind, c.K)
+	case "consts":
+		return gen.Replay(c.Choices, gen.Consts(c.Budget)), "consts"
 	}
 	return nil, ""
 }
@@ -94,7 +97,9 @@ func runCase(c Case, st *stats) (fails []fail, obs string) {
 		}
 		return m
 	}
-	d := tg.CompileDirect(src.Main.Src, inputs(0), src.ModMap, false, true)
+	mm := stdlib.GetModuleMap("math", "text")
+	mm.AddMap(src.ModMap)
+	d := tg.CompileDirect(src.Main.Src, inputs(0), mm, false, true)
 	if d.Class != "ok" {
 		return nil, "compile:" + d.Class // compile-time behaviour is C04's subject
 	}
@@ -214,6 +219,9 @@ func main() {
 		{"cflow-rich", Case{Family: "cflow", Budget: r.Pick(2, 3), Depth: 2, Rich: true}},
 		{"func", Case{Family: "func", Budget: r.Pick(2, 3)}},
 		{"dce", Case{Family: "dce"}},
+		// constant pools with duplicates of every kind, builtin / source / host-object modules (after de-duplication
+		// every constant reference must still be valid)
+		{"consts", Case{Family: "consts", Budget: r.Pick(2, 3)}},
 	}
 	for _, f := range fams {
 		f := f
@@ -253,6 +261,11 @@ func main() {
 		case "dce":
 			gen.ParallelEnumerate(gen.Dce, 3, func(p gen.CflowProgram, ch []int) {
 				distinct.Add(tg.Print(p.Prog).AllText)
+				visit(ch)
+			})
+		case "consts":
+			gen.ParallelEnumerate(gen.Consts(f.c.Budget), 2, func(p *gen.Program, ch []int) {
+				distinct.Add(tg.Print(p).AllText)
 				visit(ch)
 			})
 		}
